@@ -153,3 +153,109 @@ def f2(a1: int256) -> int256:
     return self.s2
 """, [("f1(uint256)", [5]), ("f1(uint256)", [0]), ("f2(int256)", [7]), ("f2(int256)", [2**256 - 3])]),
 ]
+
+
+# ------------------------------------------------------------------ internal-call convention: signature family
+def gen_call_family(rnd, nfun=6):
+    """contract with internal functions of varied signatures (0..20 word arguments, struct / array arguments passed through
+    memory in between, 0..6 return values: none, word, tuples, struct, array) and external wrappers w<k>(x) that build the
+    arguments from x, call and fold every returned value with position-dependent weights (so any permutation of
+    arguments or return values changes the result)."""
+    L = ["struct S:", "    a: uint256", "    b: uint256", ""]
+    wrappers = []
+    for k in range(nfun):
+        nword = rnd.choice([0, 1, 2, 3, 4, 5, 6, 7, 9, 12, 16, 20])
+        params = [("w", i) for i in range(nword)]
+        for _ in range(rnd.choice([0, 0, 1, 2])):
+            params.insert(rnd.randrange(len(params) + 1), (rnd.choice(["s", "arr"]), len(params)))
+        params = [(kind, i) for i, (kind, _j) in enumerate(params)]
+        ret = rnd.choice(["none", "word", "t2", "t3", "t6", "struct", "arr3"])
+        if not params and ret == "none":
+            ret = "word"
+        decl = ", ".join({"w": f"p{i}: uint256", "s": f"p{i}: S", "arr": f"p{i}: uint256[2]"}[kind] for kind, i in params)
+        terms = []
+        for kind, i in params:
+            wgt = 3 * i + 2
+            if kind == "w":
+                terms.append(f"unsafe_mul(p{i}, {wgt})")
+            elif kind == "s":
+                terms.append(f"unsafe_mul(p{i}.a, {wgt})")
+                terms.append(f"unsafe_mul(p{i}.b, {wgt + 1})")
+            else:
+                terms.append(f"unsafe_mul(p{i}[0], {wgt})")
+                terms.append(f"unsafe_mul(p{i}[1], {wgt + 1})")
+        acc = "0"
+        for tm in terms:
+            acc = f"unsafe_add({acc}, {tm})"
+        rett = {"none": "", "word": " -> uint256", "t2": " -> (uint256, uint256)", "t3": " -> (uint256, uint256, uint256)",
+                "t6": " -> (uint256, uint256, uint256, uint256, uint256, uint256)", "struct": " -> S", "arr3": " -> uint256[3]"}[ret]
+        nret = {"none": 0, "word": 1, "t2": 2, "t3": 3, "t6": 6, "struct": 2, "arr3": 3}[ret]
+        L += ["@internal", f"def f{k}({decl}){rett}:", f"    t: uint256 = {acc}"]
+        if ret == "none":
+            L += ["    self.sink = t"]
+        elif ret == "word":
+            L += ["    return t"]
+        elif ret == "struct":
+            L += ["    return S(a=t, b=unsafe_add(t, 1))"]
+        elif ret == "arr3":
+            L += ["    return [t, unsafe_add(t, 1), unsafe_add(t, 2)]"]
+        else:
+            L += ["    return " + ", ".join(f"unsafe_add(t, {j})" for j in range(nret))]
+        L.append("")
+        # wrapper
+        argx = ", ".join({"w": f"unsafe_add(x, {i})", "s": f"S(a=unsafe_add(x, {i}), b={i + 100})",
+                          "arr": f"[unsafe_add(x, {i}), {i + 200}]"}[kind] for kind, i in params)
+        W = ["@external", f"def w{k}(x: uint256) -> uint256:", "    base: uint256 = unsafe_mul(x, 7)"]
+        call = f"self.f{k}({argx})"
+        if ret == "none":
+            W += [f"    {call}", "    return unsafe_add(base, self.sink)"]
+        elif ret == "word":
+            W += [f"    r: uint256 = {call}", "    return unsafe_add(base, r)"]
+        elif ret == "struct":
+            W += [f"    r: S = {call}", "    return unsafe_add(base, unsafe_add(unsafe_mul(r.a, 3), unsafe_mul(r.b, 5)))"]
+        elif ret == "arr3":
+            W += [f"    r: uint256[3] = {call}",
+                  "    return unsafe_add(base, unsafe_add(unsafe_mul(r[0], 3), unsafe_add(unsafe_mul(r[1], 5), unsafe_mul(r[2], 7))))"]
+        else:
+            names = [f"r{j}" for j in range(nret)]
+            for nme in names:
+                W.append(f"    {nme}: uint256 = 0")
+            W.append("    " + ", ".join(names) + f" = {call}")
+            fold = "base"
+            for j, nme in enumerate(names):
+                fold = f"unsafe_add({fold}, unsafe_mul({nme}, {2 * j + 3}))"
+            W.append(f"    return {fold}")
+        W.append("")
+        wrappers += W
+    src = "\n".join(L[:4] + ["sink: uint256", ""] + L[4:] + wrappers) + "\n"
+    return src, [f"w{k}(uint256)" for k in range(nfun)]
+
+
+def arity_disagreements(ctx):
+    """on the final venom IR: every `invoke` passes as many operands as the callee has `param`s (the return pc is the
+    callee's last param and is not an operand) and binds as many outputs as every `ret` of the callee returns"""
+    from vyper.venom.basicblock import IRLabel
+    bad, n = [], 0
+    fns = {fn.name.value: fn for fn in ctx.functions.values()}
+    for fn in ctx.functions.values():
+        for bb in fn.get_basic_blocks():
+            for inst in bb.instructions:
+                if inst.opcode != "invoke":
+                    continue
+                n += 1
+                target = inst.operands[0]
+                assert isinstance(target, IRLabel)
+                callee = fns.get(target.value)
+                if callee is None:
+                    bad.append({"caller": fn.name.value, "invoke": str(inst), "problem": "unknown callee"})
+                    continue
+                nparams = sum(1 for i in callee.entry.instructions if i.is_param)
+                nops = len(list(inst.get_non_label_operands()))
+                if nparams != nops + 1:
+                    bad.append({"caller": fn.name.value, "invoke": str(inst), "problem": f"{nops} operands for {nparams} params (incl. return pc)"})
+                for cbb in callee.get_basic_blocks():
+                    for ci in cbb.instructions:
+                        if ci.opcode == "ret" and len(ci.operands) - 1 != len(inst.get_outputs()):
+                            bad.append({"caller": fn.name.value, "invoke": str(inst), "ret": str(ci),
+                                        "problem": f"{len(inst.get_outputs())} outputs bound, callee returns {len(ci.operands) - 1}"})
+    return n, bad
